@@ -76,8 +76,10 @@ SPEC = dict(
                    'trusted are the BUILT-IN models used by both sides of every equation: '
                    'Model/Base64.lean and the text built-ins of Model/Address.lean (str.split, int(str[,16]), bytes.fromhex, str(int), bytes.hex, '
                    'base64/binascii are modelled by hand for ASCII text) - tied to the library only by sampled differential correspondence '
-                   '(~150k model requests quick, ~6M thorough: every text produced, every parse result, all 3024 substitutions of 40/2000 '
-                   'addresses, lenient and malformed inputs); crc16 itself is the C18 translation of crc.py (re-proved each run). The tag '
+                   '(~200k model requests quick, ~6M thorough: every text produced, every parse result, all 3024 substitutions of 50/2000 '
+                   'addresses, lenient and malformed inputs; among the addresses ~300 are SOLVED FOR from their text: every str literal of the current '
+                   'address.py planted into the friendly text at start / inside / end / twice and into the raw form, friendly texts over sub-alphabets '
+                   '(hex digits only, letters only, alphanumeric only ...), int literals +-1 as workchain); crc16 itself is the C18 translation of crc.py (re-proved each run). The tag '
                    'arithmetic is regenerated from address.py on every run (Generated/AddrTags.lean): the statements of to_str computing the tag '
                    'byte (0x11 / 0x51, |0x80) and the statements of is_b64 decoding it (test flag = bit 7, bounceable iff the rest is 0x11) are '
                    'proved equal to the model for all flag values and all 256 byte values (c13_src_tag, c13_src_b64_flags) and the hand model '
@@ -88,7 +90,9 @@ SPEC = dict(
     ),
     translators=[],
     design_ref='DESIGN.md §6 C13',
-    rule='addresses: wc in {-128,-1,0,1,127} u random in -128..127, hash in {00..,ff..,random 32 bytes}; each rendered in 8 friendly variants '
+    rule='addresses solved for from their text: every str literal of the current address.py planted into the friendly text (start / inside / end / twice, '
+         'all offsets mod 4) and into the raw form, friendly texts over sub-alphabets (hex only, letters only, alphanumeric ...), int literals +-1 as workchain; '
+         'addresses: wc in {-128,-1,0,1,127} u random in -128..127, hash in {00..,ff..,random 32 bytes}; each rendered in 8 friendly variants '
          '+ raw and parsed back; all 48x63 substitutions for 40 (quick) / 2000 (thorough) friendly texts; lenient/malformed texts; '
          'distinct = distinct (operation, address, variant or text); non-trivial = every case except the empty text',
     trusted_base=['Model/Address.lean + Model/Base64.lean mirror address.py and the used part of base64/binascii/int()/bytes.fromhex by hand (ASCII texts)',
@@ -428,9 +432,96 @@ def src_search(ctx):
     return len(ctx.failures) > n0
 
 
+ADDR_FILES = ['pytoniq_core/boc/address.py']
+HEXL = '0123456789abcdef'
+
+
+def special_text_cases(ctx):
+    """Round 10 classes (harness/gen/addrtexts.py, harness/gen/literals.py) - addresses SOLVED FOR from their text:
+    A. every str literal of the CURRENT address.py (its runs over the base64 alphabets) planted into the friendly text: at the start (if a
+       legal tag / workchain nibble spells it), at the first and last place inside the hash-only characters 3..44, at the very end (through
+       the checksum, by CRC linearity), at every offset mod 4, at arbitrary places, and twice in one text;
+    B. friendly texts over a sub-alphabet (hex digits only, lower-case hex only, letters only, alphanumeric only ...): texts that are also
+       well-formed in ANOTHER form's alphabet (a bare hex number, both base64 alphabets at once);
+    C. the raw form with the literals inside: hex literals in the hash, digit literals inside the workchain number, int literals +-1 as
+       workchain and as hash bytes.
+    Each goes through check_addr (all 8 friendly variants + raw: text == format transcription, Address(text) == the address with the flags
+    it was rendered with, model correspondence); sub-alphabet texts also through ALL 48 x 63 substitutions."""
+    from ..gen import addrtexts as at
+    from ..gen.literals import source_literals, plantable
+    rng = ctx.rng
+    lits = source_literals(ADDR_FILES)
+    ctx.count('special:source-str-literals', len(lits.strs))
+    # A
+    runs = []
+    for url in (False, True):
+        for lit in plantable(lits.strs, URL if url else STD, 45):
+            if all(c in STD[:62] for c in lit):
+                if lit not in [r[0] for r in runs]:
+                    runs.append((lit, None))
+            else:
+                runs.append((lit, url))
+    if len(runs) > 60:
+        runs = sorted(runs, key=lambda r: -len(r[0]))[:20] + rng.sample(sorted(runs, key=lambda r: -len(r[0]))[20:], 40)
+    for lit, url in runs:
+        url = (rng.random() < .5) if url is None else url
+        for tag, wc, hp, offs in at.planted(lit, url, rng):
+            b, t = at.tag_flags(tag)
+            text = spec_friendly(wc, hp, url, b, t)
+            if any(text[o:o + len(lit)] != lit for o in offs):
+                raise AssertionError(f'harness: planted literal {lit!r} not in {text!r} at {offs}')
+            ctx.count('special:planted-' + ('start' if offs[0] == 0 else 'end' if offs[-1] + len(lit) == 48 else 'twice' if len(offs) > 1 else 'inside'))
+            check_addr(ctx, wc, hp, 'planted-literal')
+    # B
+    for k, (name, sub) in enumerate(at.SUBALPHABETS):
+        for url in (True, False):
+            for j in range(ctx.n(2, 6)):
+                r = at.subalphabet_text(sub, url, rng)
+                if r is None:
+                    ctx.count('special:subalphabet-infeasible')
+                    break
+                tag, wc, hp = r
+                b, t = at.tag_flags(tag)
+                text = spec_friendly(wc, hp, url, b, t)
+                if not all(c in sub for c in text):
+                    raise AssertionError(f'harness: {text!r} is not over the sub-alphabet {name}')
+                ctx.count('special:subalphabet:' + name)
+                check_addr(ctx, wc, hp, 'subalphabet-' + name)
+                if j == 0 and (k + int(url)) % 2 == 0:
+                    check_subst(ctx, wc, hp, url, b, t)
+    # C
+    for lit in plantable(lits.strs, HEXL, 64)[:40]:
+        n = len(lit)
+        for o in {0, 64 - n, rng.randrange(0, 65 - n), rng.randrange(0, 65 - n) | 1 if 64 - n >= 1 else 0}:
+            if o + n > 64:
+                continue
+            h = ''.join(rng.choice(HEXL) for _ in range(64))
+            ctx.count('special:raw-hex-literal')
+            check_addr(ctx, rng.randrange(-128, 128), bytes.fromhex(h[:o] + lit + h[o + n:]), 'raw-literal')
+    for lit in plantable(lits.strs, '0123456789', 30)[:20]:
+        for txt in ('1' + lit, '-1' + lit, '9' + lit + '7', lit.lstrip('0') or '0'):
+            ctx.count('special:raw-wc-literal')
+            check_addr(ctx, int(txt), rng.randbytes(32), 'raw-literal')
+    small = [v for v in lits.ints if abs(v) < 1 << 64]
+    for v in (small if len(small) <= 40 else rng.sample(small, 40)):
+        for w in {v - 1, v, v + 1, -v}:
+            ctx.count('special:int-literal-wc')
+            check_addr(ctx, w, rng.randbytes(32), 'int-literal')
+        if 0 <= v < 256:
+            k = rng.randrange(32)
+            hp = rng.randbytes(32)
+            check_addr(ctx, rng.randrange(-128, 128), bytes([v]) * 32, 'int-literal')
+            check_addr(ctx, rng.randrange(-128, 128), hp[:k] + bytes([v]) + hp[k + 1:], 'int-literal')
+
+
 def run(ctx):
     rng = ctx.rng
     if ctx.search and src_search(ctx):
+        return
+    # 0. addresses solved for from their text (source literals planted, sub-alphabet texts)
+    n0 = len(ctx.failures)
+    special_text_cases(ctx)
+    if ctx.search and len(ctx.failures) > n0:
         return
     # 1. all text forms of structured + random addresses
     addrs = list(addresses(ctx, ctx.n(400, 3000)))
